@@ -96,6 +96,11 @@ int sbdf_cm_get_name(sbdf_metadata_head* inp, char** out)
 
 	sbdf_obj_destroy(obj);
 
+	if (!*out)
+	{
+		return SBDF_ERROR_OUT_OF_MEMORY;
+	}
+
 	return SBDF_OK;
 }
 
